@@ -22,7 +22,7 @@ func init() {
 			ExhGen: func(i int) *Trace { return ExhC04(i, L) },
 			Budget: tierPick(tier, 50*time.Second, 12*time.Minute),
 			Rule: "operation histories on blockstore.ReadWrite / storage.StorageCar over a simulated disk, each result compared with a reference map model after every step (plus an audit of Has/Get/GetSize over the whole block alphabet and near-miss keys after every mutating call, and a frozen-mutation-log check after close); " +
-				"exhaustive part: every history of length <= L over a 5-block collision alphabet and all typestate operations under 16 option sets per store kind; seeded part: random histories to length 30 with swarm-drawn options. " +
+				"exhaustive part: every history of length <= L over a 5-block collision alphabet and all typestate operations under 16 option sets per store kind; seeded part: random histories to length 30 with swarm-drawn options (incl. ZeroLengthSectionAsEOF and, 1 in 10, a 200-byte read-side section limit); a third of them contain restarts (Discard/Finalize + reopen of the same file) after which the model must still hold. " +
 				"An execution is non-trivial when the model's content or typestate changed at least once; distinct = distinct hash of (options, op/typestate sequence, number of stored sections)",
 			Gen: GenC04, Exec: RunSessionC04, Minimise: true,
 			Assume:   []string{"the reference model's reading of the option documentation (DESIGN.md section 4/C04), including the listed sets of permitted answers", "go-cid / go-multihash compute CIDs correctly"},
